@@ -153,6 +153,7 @@ def simulate(p, kwargs, script, poll_flags=None):
     o["inline"] = lambda fi, node: base(fi, node) or fi.parent is not None
     o["max_depth"] = 14
     o["max_while"] = 8
+    o["assert_forks"] = True  # a failing assert is an AssertionError for the caller, not a comment
     paths = explore(p, run, o)
     for pa in paths:
         it = pa.interp
@@ -183,14 +184,17 @@ def rule_cond(ctx):
     rows = 0
     bad = False
     check = Term("param", "checkfn", pytype="function")
-    for cond in ("expect", "initial", "check"):
-        for ek in ("ValueUpdate", "StateUpdate", "DefinitionUpdate"):
-            for equal in (True, False):
+    # the reference value may be any value a property can take, falsy ones included (waiting for a countdown to reach 0,
+    # for a text to become empty): (reference, an equal event value, a different event value)
+    operands = [("x", "x", "y"), (0, 0, 1), (0.0, 0.0, 2.5), ("", "", "y"), (False, False, True)]
+    for cond, ek, equal, (ref, same, other) in [(c_, e_, q_, o_) for c_ in ("expect", "initial", "check") for e_ in ("ValueUpdate", "StateUpdate", "DefinitionUpdate") for q_ in (True, False) for o_ in (operands if c_ != "check" and e_ == "ValueUpdate" else operands[:1])]:
+        if True:
+            if True:
                 rows += 1
-                ev = _event(p, ek, "x" if equal else "y")
-                kw = {"expect": Const("x")} if cond == "expect" else ({"initial": Const("x")} if cond == "initial" else {"check": check})
+                ev = _event(p, ek, same if equal else other)
+                kw = {"expect": Const(ref)} if cond == "expect" else ({"initial": Const(ref)} if cond == "initial" else {"check": check})
                 kw["polling_enabled"] = Const(False)
-                r = _one(ctx, "C17.COND", f, simulate(p, kw, [("event", ev)]), f"{cond}/{ek}/{equal}")
+                r = _one(ctx, "C17.COND", f, simulate(p, kw, [("event", ev)]), f"{cond}={ref!r}/{ek}/{equal}")
                 if r is None:
                     bad = True
                     continue
@@ -202,7 +206,7 @@ def rule_cond(ctx):
                     exp = equal
                 else:
                     exp = not equal
-                row = f"condition={cond} event={ek} operand {'equal' if equal else 'different'}"
+                row = f"condition={cond}" + (f"={ref!r}" if cond != "check" else "") + f" event={ek} carrying {(same if equal else other)!r} ({'equal' if equal else 'different'})"
                 released = r["outcome"] == "return"
                 if r["outcome"] == "raise":
                     ctx.violated("C17.COND", f.short, f"[{row}] the wait raises {show(r['value'])[:50]}", fi=f, text=f"raise:{cond}:{ek}", witness=row)
